@@ -1,6 +1,6 @@
 (** C04 - Key rollover is safe in every interleaving and always completes.
     Only statements; proofs in ca/CaProofs.v and ca/CaObjProofs.v. *)
-From KV Require Import base.Tac ca.Ca ca.CaProofs ca.CaObjProofs ca.CaCheck ca.CaMirrorProofs.
+From KV Require Import base.Tac ca.Ca ca.CaProofs ca.CaObjProofs ca.CaCheck ca.CaMirrorProofs ca.KeyCheck.
 Open Scope N_scope.
 
 (** No event emitted by a key life-cycle command can hit a panicking arm of [apply]. *)
@@ -100,6 +100,15 @@ Theorem C04_listener_class_view : forall env cn objs c e,
   end.
 Proof. exact listen1_class. Qed.
 
+(** The key state machine driven directly (second scenario `keystates`): for a class with a staged new key the
+    implementation's activation must succeed exactly when neither key has an open certificate request - the
+    oracle evaluated on the implementation's own KeyState values is that statement. *)
+Theorem C04_activation_guard_oracle : forall n cur obs,
+  k_ok (mkK (KRollNew n cur) QActivate obs) = true <->
+  (if k_req n || k_req cur then obs = ORefused else obs = OEvents [1]).
+Proof. exact k_ok_activate_iff. Qed.
+
+Print Assumptions C04_activation_guard_oracle.
 Print Assumptions C04_listener_accepts_and_mirrors.
 Print Assumptions C04_listener_class_view.
 Print Assumptions C04_events_applicable.
